@@ -86,6 +86,7 @@ type World struct {
 	closed            bool // close() ran (or the case disposed of the instance itself)
 	apiH              *apiHandle
 	// options
+	txIDs          map[*wire.MsgTx]wire.Hash // ids of the transactions of attached blocks (chainTx)
 	allowNullData  bool
 	allowZeroValue bool // blocks may pay value-0 outputs to wallet addresses and spend them (C01)
 	allowStaking   bool
